@@ -113,37 +113,76 @@ impl Conditional<f64> for DetConditional {
     }
 }
 
-fn runner_out<S, T, F>(s: &mut S, spec: &Spec, mode: Mode, conv: F) -> Result<RunOut, String>
+/// A built sampler that can be run repeatedly (call histories) in any mode.
+pub trait AnySampler {
+    fn run(&mut self, n_collect: usize, n_discard: usize, mode: Mode) -> Result<RunOut, String>;
+    /// current state of every chain, bit patterns, row-major [chain][dim]
+    fn state_bits(&mut self) -> Vec<u64>;
+    /// perform `n` transitions through the public per-transition API (MH/Gibbs: every chain's
+    /// step(); HMC: step()); None where no such API reproduces run() (NUTS)
+    fn manual_steps(&mut self, n: usize) -> Option<()>;
+}
+
+pub struct RunnerSampler<S, T, F> {
+    pub s: S,
+    pub conv: F,
+    pub ph: std::marker::PhantomData<T>,
+}
+impl<S, T, F> AnySampler for RunnerSampler<S, T, F>
 where
     S: HasChains<T>,
     T: ndarray::LinalgScalar + PartialEq + Send + num_traits::ToPrimitive,
     F: Fn(&Array3<T>) -> (Vec<u64>, [usize; 3]),
 {
-    match mode {
-        Mode::Sequential => {
-            let mut rows = vec![];
-            for c in s.chains_mut().iter_mut() {
-                rows.push(run_chain(c, spec.n_collect, spec.n_discard));
+    fn run(&mut self, n_collect: usize, n_discard: usize, mode: Mode) -> Result<RunOut, String> {
+        match mode {
+            Mode::Sequential => {
+                let mut rows = vec![];
+                for c in self.s.chains_mut().iter_mut() {
+                    rows.push(run_chain(c, n_collect, n_discard));
+                }
+                let views: Vec<_> = rows.iter().map(|r| r.view()).collect();
+                let a = ndarray::stack(ndarray::Axis(0), &views).map_err(|e| e.to_string())?;
+                let (bits, shape) = (self.conv)(&a);
+                Ok(RunOut { bits, shape, stats: None })
             }
-            let views: Vec<_> = rows.iter().map(|r| r.view()).collect();
-            let a = ndarray::stack(ndarray::Axis(0), &views).map_err(|e| e.to_string())?;
-            let (bits, shape) = conv(&a);
-            Ok(RunOut { bits, shape, stats: None })
+            Mode::Run => {
+                let a = self.s.run(n_collect, n_discard).map_err(|e| e.to_string())?;
+                let (bits, shape) = (self.conv)(&a);
+                Ok(RunOut { bits, shape, stats: None })
+            }
+            Mode::Progress => {
+                let (a, st) = self.s.run_progress(n_collect, n_discard).map_err(|e| e.to_string())?;
+                let (bits, shape) = (self.conv)(&a);
+                Ok(RunOut { bits, shape, stats: Some(st) })
+            }
         }
-        Mode::Run => {
-            let a = s.run(spec.n_collect, spec.n_discard).map_err(|e| e.to_string())?;
-            let (bits, shape) = conv(&a);
-            Ok(RunOut { bits, shape, stats: None })
+    }
+    fn state_bits(&mut self) -> Vec<u64> {
+        use mini_mcmc::core::MarkovChain;
+        let mut out = vec![];
+        for c in self.s.chains_mut().iter_mut() {
+            let st = c.current_state().clone();
+            let a = Array3::from_shape_vec((1, 1, st.len()), st).unwrap();
+            out.extend((self.conv)(&a).0);
         }
-        Mode::Progress => {
-            let (a, st) = s.run_progress(spec.n_collect, spec.n_discard).map_err(|e| e.to_string())?;
-            let (bits, shape) = conv(&a);
-            Ok(RunOut { bits, shape, stats: Some(st) })
+        out
+    }
+    fn manual_steps(&mut self, n: usize) -> Option<()> {
+        use mini_mcmc::core::MarkovChain;
+        for c in self.s.chains_mut().iter_mut() {
+            for _ in 0..n {
+                c.step();
+            }
         }
+        Some(())
     }
 }
 
-fn hmc_out<T, B, G>(mut h: HMC<T, B, G>, spec: &Spec, mode: Mode) -> Result<RunOut, String>
+pub struct HmcSampler<T, B: AutodiffBackend, G> {
+    pub h: HMC<T, B, G>,
+}
+impl<T, B, G> AnySampler for HmcSampler<T, B, G>
 where
     T: Float + burn::tensor::ElementConversion + Element + rand_distr::uniform::SampleUniform + num_traits::FromPrimitive,
     B: AutodiffBackend,
@@ -151,21 +190,44 @@ where
     rand_distr::StandardNormal: rand::distr::Distribution<T>,
     rand_distr::StandardUniform: rand_distr::Distribution<T>,
 {
-    match mode {
-        Mode::Sequential | Mode::Run => {
-            let t = h.run(spec.n_collect, spec.n_discard);
-            let (bits, shape) = tensor_bits(&t);
-            Ok(RunOut { bits, shape, stats: None })
+    fn run(&mut self, n_collect: usize, n_discard: usize, mode: Mode) -> Result<RunOut, String> {
+        match mode {
+            Mode::Sequential | Mode::Run => {
+                let t = self.h.run(n_collect, n_discard);
+                let (bits, shape) = tensor_bits(&t);
+                Ok(RunOut { bits, shape, stats: None })
+            }
+            Mode::Progress => {
+                let (t, st) = self.h.run_progress(n_collect, n_discard).map_err(|e| e.to_string())?;
+                let (bits, shape) = tensor_bits(&t);
+                Ok(RunOut { bits, shape, stats: Some(st) })
+            }
         }
-        Mode::Progress => {
-            let (t, st) = h.run_progress(spec.n_collect, spec.n_discard).map_err(|e| e.to_string())?;
-            let (bits, shape) = tensor_bits(&t);
-            Ok(RunOut { bits, shape, stats: Some(st) })
+    }
+    fn state_bits(&mut self) -> Vec<u64> {
+        bits_of_f64(&self.h.positions.to_data().convert::<f64>().to_vec::<f64>().unwrap())
+    }
+    fn manual_steps(&mut self, n: usize) -> Option<()> {
+        for _ in 0..n {
+            self.h.step();
         }
+        Some(())
     }
 }
 
-fn nuts_out<T, B, G>(mut s: NUTS<T, B, G>, spec: &Spec, mode: Mode) -> Result<RunOut, String>
+pub struct NutsSampler<T, B: AutodiffBackend, G>
+where
+    T: Float + burn::tensor::ElementConversion + Element + rand_distr::uniform::SampleUniform + num_traits::FromPrimitive,
+    G: mini_mcmc::distributions::GradientTarget<T, B> + Sync,
+    rand_distr::StandardNormal: rand::distr::Distribution<T>,
+    rand_distr::StandardUniform: rand_distr::Distribution<T>,
+    rand_distr::Exp1: rand_distr::Distribution<T>,
+{
+    pub s: NUTS<T, B, G>,
+    /// stand-alone chains built individually with the documented per-chain seeds (seed + c + 1)
+    pub alone: Vec<mini_mcmc::nuts::NUTSChain<T, B, G>>,
+}
+impl<T, B, G> AnySampler for NutsSampler<T, B, G>
 where
     T: Float + burn::tensor::ElementConversion + Element + rand_distr::uniform::SampleUniform + num_traits::FromPrimitive + Send,
     B: AutodiffBackend + Send,
@@ -174,27 +236,66 @@ where
     rand_distr::StandardUniform: rand_distr::Distribution<T>,
     rand_distr::Exp1: rand_distr::Distribution<T>,
 {
-    match mode {
-        Mode::Sequential => {
-            let mut rows = vec![];
-            for c in s.verif_chains_mut().iter_mut() {
-                rows.push(c.run(spec.n_collect, spec.n_discard));
+    fn run(&mut self, n_collect: usize, n_discard: usize, mode: Mode) -> Result<RunOut, String> {
+        match mode {
+            Mode::Sequential => {
+                // the multi-chain runner's promise: exactly what its chains return individually
+                let mut rows = vec![];
+                for c in self.alone.iter_mut() {
+                    rows.push(c.run(n_collect, n_discard));
+                }
+                let t = Tensor::<B, 2>::stack(rows, 0);
+                let (bits, shape) = tensor_bits(&t);
+                Ok(RunOut { bits, shape, stats: None })
             }
-            let t = Tensor::<B, 2>::stack(rows, 0);
-            let (bits, shape) = tensor_bits(&t);
-            Ok(RunOut { bits, shape, stats: None })
-        }
-        Mode::Run => {
-            let t = s.run(spec.n_collect, spec.n_discard);
-            let (bits, shape) = tensor_bits(&t);
-            Ok(RunOut { bits, shape, stats: None })
-        }
-        Mode::Progress => {
-            let (t, st) = s.run_progress(spec.n_collect, spec.n_discard).map_err(|e| e.to_string())?;
-            let (bits, shape) = tensor_bits(&t);
-            Ok(RunOut { bits, shape, stats: Some(st) })
+            Mode::Run => {
+                let t = self.s.run(n_collect, n_discard);
+                let (bits, shape) = tensor_bits(&t);
+                Ok(RunOut { bits, shape, stats: None })
+            }
+            Mode::Progress => {
+                let (t, st) = self.s.run_progress(n_collect, n_discard).map_err(|e| e.to_string())?;
+                let (bits, shape) = tensor_bits(&t);
+                Ok(RunOut { bits, shape, stats: Some(st) })
+            }
         }
     }
+    fn state_bits(&mut self) -> Vec<u64> {
+        let mut out = vec![];
+        for c in self.s.verif_chains().iter() {
+            out.extend(bits_of_f64(&c.position.to_data().convert::<f64>().to_vec::<f64>().unwrap()));
+        }
+        out
+    }
+    fn manual_steps(&mut self, _n: usize) -> Option<()> {
+        None
+    }
+}
+
+fn nuts_pair<T, B, G>(target: G, init: Vec<Vec<T>>, p: T, seed: u64) -> NutsSampler<T, B, G>
+where
+    T: Float + burn::tensor::ElementConversion + Element + rand_distr::uniform::SampleUniform + num_traits::FromPrimitive + Send,
+    B: AutodiffBackend + Send,
+    G: mini_mcmc::distributions::GradientTarget<T, B> + Sync + Clone + Send,
+    rand_distr::StandardNormal: rand::distr::Distribution<T>,
+    rand_distr::StandardUniform: rand_distr::Distribution<T>,
+    rand_distr::Exp1: rand_distr::Distribution<T>,
+{
+    let alone = init
+        .iter()
+        .enumerate()
+        .map(|(c, pos)| mini_mcmc::nuts::NUTSChain::new(target.clone(), pos.clone(), p).set_seed(seed.wrapping_add(c as u64).wrapping_add(1)))
+        .collect();
+    NutsSampler { s: NUTS::new(target, init, p).set_seed(seed), alone }
+}
+
+fn rs<S, T, F>(s: S, conv: F) -> Box<dyn AnySampler>
+where
+    S: HasChains<T> + 'static,
+    T: ndarray::LinalgScalar + PartialEq + Send + num_traits::ToPrimitive + 'static,
+    F: Fn(&Array3<T>) -> (Vec<u64>, [usize; 3]) + 'static,
+{
+    Box::new(RunnerSampler { s, conv, ph: std::marker::PhantomData })
 }
 
 pub const KINDS: &[&str] = &["mh_gauss", "mh_gauss_f32", "mh_table", "gibbs_det", "hmc_f32", "hmc_f64", "hmc_rosen_f32", "nuts_f32", "nuts_f64", "nuts_rosen_f64"];
@@ -208,84 +309,75 @@ pub fn is_nuts(kind: &str) -> bool {
     kind.starts_with("nuts")
 }
 
-/// Build the sampler from (inputs, seed) and run it in `mode`.
+/// Build the sampler from (inputs, seed) and run it once in `mode`.
 pub fn run_spec(spec: &Spec, mode: Mode) -> Result<RunOut, String> {
+    build(spec)?.run(spec.n_collect, spec.n_discard, mode)
+}
+
+/// Build the sampler from (inputs, seed).
+pub fn build(spec: &Spec) -> Result<Box<dyn AnySampler>, String> {
     let nc = spec.n_chains;
-    match spec.kind.as_str() {
+    Ok(match spec.kind.as_str() {
         "mh_gauss" => {
             let target = Gaussian2D { mean: arr1(&[0.5f64, -1.0]), cov: arr2(&[[2.0, 0.6], [0.6, 1.0]]) };
             let proposal = IsotropicGaussian::<f64>::new(0.9).set_seed(spec.pos_seed ^ 0x5eed);
-            let mut s = MetropolisHastings::new(target, proposal, init_with_seed::<f64>(nc, 2, spec.pos_seed)).seed(spec.seed);
-            runner_out(&mut s, spec, mode, arr_bits::<f64>)
+            rs(MetropolisHastings::new(target, proposal, init_with_seed::<f64>(nc, 2, spec.pos_seed)).seed(spec.seed), arr_bits::<f64>)
         }
         "mh_gauss_f32" => {
             let target = Gaussian2D { mean: arr1(&[0.5f32, -1.0]), cov: arr2(&[[2.0, 0.6], [0.6, 1.0]]) };
             let proposal = IsotropicGaussian::<f32>::new(0.9).set_seed(spec.pos_seed ^ 0x5eed);
-            let mut s = MetropolisHastings::new(target, proposal, init_with_seed::<f32>(nc, 2, spec.pos_seed)).seed(spec.seed);
-            runner_out(&mut s, spec, mode, arr_bits::<f32>)
+            rs(MetropolisHastings::new(target, proposal, init_with_seed::<f32>(nc, 2, spec.pos_seed)).seed(spec.seed), arr_bits::<f32>)
         }
         "mh_table" => {
             let target = TableTarget { logp: vec![-1.0, -0.2, -2.5, f64::NEG_INFINITY, -0.7, -1.3, -3.0] };
             let proposal = WalkProposal { p_up: 0.6, rng: SmallRng::seed_from_u64(0) }.set_seed(spec.pos_seed ^ 0x77);
             let init: Vec<Vec<i32>> = (0..nc).map(|c| vec![(c % 3) as i32]).collect();
-            let mut s = MetropolisHastings::new(target, proposal, init).seed(spec.seed);
-            runner_out(&mut s, spec, mode, arr_bits_i32)
+            rs(MetropolisHastings::new(target, proposal, init).seed(spec.seed), arr_bits_i32)
         }
         "gibbs_det" => {
-            let mut s = GibbsSampler::new(DetConditional, init_with_seed::<f64>(nc, 3, spec.pos_seed)).set_seed(spec.seed);
-            runner_out(&mut s, spec, mode, arr_bits::<f64>)
+            rs(GibbsSampler::new(DetConditional, init_with_seed::<f64>(nc, 3, spec.pos_seed)).set_seed(spec.seed), arr_bits::<f64>)
         }
         "hmc_f32" => {
             let t = DiffableGaussian2D::new([0.0f32, 1.0], [[4.0, 2.0], [2.0, 3.0]]);
-            let h = HMC::<f32, BF32, _>::new(t, init_with_seed::<f32>(nc, 2, spec.pos_seed), 0.1, 5).set_seed(spec.seed);
-            hmc_out(h, spec, mode)
+            Box::new(HmcSampler { h: HMC::<f32, BF32, _>::new(t, init_with_seed::<f32>(nc, 2, spec.pos_seed), 0.1, 5).set_seed(spec.seed) })
         }
         "hmc_f64" => {
             let t = DiffableGaussian2D::new([0.0f64, 1.0], [[4.0, 2.0], [2.0, 3.0]]);
-            let h = HMC::<f64, BF64, _>::new(t, init_with_seed::<f64>(nc, 2, spec.pos_seed), 0.1, 5).set_seed(spec.seed);
-            hmc_out(h, spec, mode)
+            Box::new(HmcSampler { h: HMC::<f64, BF64, _>::new(t, init_with_seed::<f64>(nc, 2, spec.pos_seed), 0.1, 5).set_seed(spec.seed) })
         }
         "hmc_rosen_f32" => {
             let t = Rosenbrock2D { a: 1.0f32, b: 10.0f32 };
-            let h = HMC::<f32, BF32, _>::new(t, init_with_seed::<f32>(nc, 2, spec.pos_seed), 0.02, 4).set_seed(spec.seed);
-            hmc_out(h, spec, mode)
+            Box::new(HmcSampler { h: HMC::<f32, BF32, _>::new(t, init_with_seed::<f32>(nc, 2, spec.pos_seed), 0.02, 4).set_seed(spec.seed) })
         }
         "nuts_f32" => {
             let t = DiffableGaussian2D::new([0.0f32, 1.0], [[4.0, 2.0], [2.0, 3.0]]);
-            let s = NUTS::<f32, BF32, _>::new(t, init_with_seed::<f32>(nc, 2, spec.pos_seed), 0.8).set_seed(spec.seed);
-            nuts_out(s, spec, mode)
+            Box::new(nuts_pair::<f32, BF32, _>(t, init_with_seed::<f32>(nc, 2, spec.pos_seed), 0.8, spec.seed))
         }
         "nuts_f64" => {
             let t = DiffableGaussian2D::new([0.0f64, 1.0], [[4.0, 2.0], [2.0, 3.0]]);
-            let s = NUTS::<f64, BF64, _>::new(t, init_with_seed::<f64>(nc, 2, spec.pos_seed), 0.8).set_seed(spec.seed);
-            nuts_out(s, spec, mode)
+            Box::new(nuts_pair::<f64, BF64, _>(t, init_with_seed::<f64>(nc, 2, spec.pos_seed), 0.8, spec.seed))
         }
         "nuts_rosen_f64" => {
             let t = Rosenbrock2D { a: 1.0f64, b: 10.0f64 };
-            let s = NUTS::<f64, BF64, _>::new(t, init_with_seed::<f64>(nc, 2, spec.pos_seed), 0.9).set_seed(spec.seed);
-            nuts_out(s, spec, mode)
+            Box::new(nuts_pair::<f64, BF64, _>(t, init_with_seed::<f64>(nc, 2, spec.pos_seed), 0.9, spec.seed))
         }
         // element type / backend mismatches for the C10 backend matrix
         "hmc_t64_b32" => {
             let t = DiffableGaussian2D::new([0.0f64, 1.0], [[4.0, 2.0], [2.0, 3.0]]);
-            let h = HMC::<f64, BF32, _>::new(t, init_with_seed::<f64>(nc, 2, spec.pos_seed), 0.1, 5).set_seed(spec.seed);
-            hmc_out(h, spec, mode)
+            Box::new(HmcSampler { h: HMC::<f64, BF32, _>::new(t, init_with_seed::<f64>(nc, 2, spec.pos_seed), 0.1, 5).set_seed(spec.seed) })
         }
         "hmc_t32_b64" => {
             let t = DiffableGaussian2D::new([0.0f32, 1.0], [[4.0, 2.0], [2.0, 3.0]]);
-            let h = HMC::<f32, BF64, _>::new(t, init_with_seed::<f32>(nc, 2, spec.pos_seed), 0.1, 5).set_seed(spec.seed);
-            hmc_out(h, spec, mode)
+            Box::new(HmcSampler { h: HMC::<f32, BF64, _>::new(t, init_with_seed::<f32>(nc, 2, spec.pos_seed), 0.1, 5).set_seed(spec.seed) })
         }
         "nuts_t64_b32" => {
             let t = DiffableGaussian2D::new([0.0f64, 1.0], [[4.0, 2.0], [2.0, 3.0]]);
-            let s = NUTS::<f64, BF32, _>::new(t, init_with_seed::<f64>(nc, 2, spec.pos_seed), 0.8).set_seed(spec.seed);
-            nuts_out(s, spec, mode)
+            Box::new(nuts_pair::<f64, BF32, _>(t, init_with_seed::<f64>(nc, 2, spec.pos_seed), 0.8, spec.seed))
         }
         "nuts_t32_b64" => {
             let t = DiffableGaussian2D::new([0.0f32, 1.0], [[4.0, 2.0], [2.0, 3.0]]);
-            let s = NUTS::<f32, BF64, _>::new(t, init_with_seed::<f32>(nc, 2, spec.pos_seed), 0.8).set_seed(spec.seed);
-            nuts_out(s, spec, mode)
+            Box::new(nuts_pair::<f32, BF64, _>(t, init_with_seed::<f32>(nc, 2, spec.pos_seed), 0.8, spec.seed))
         }
-        other => Err(format!("HARNESS-ERROR: unknown sampler kind {other}")),
-    }
+        other => return Err(format!("HARNESS-ERROR: unknown sampler kind {other}")),
+    })
 }
